@@ -65,11 +65,19 @@ P = {
                   "model reproduces every result, every monitor's message sequence and the final contents.",
              note="Trusted: TLC, per-call invocation/response stamps from one atomic counter; a failed call is placed without effect.",
              tech="TLC model checking of Server.tla + linearisation search by TLC over recorded concurrent executions"),
+ "C13": dict(engine="tla-iso", cat="model_checking", ref="6 C13",
+             text="Iso.tla is a heap model of the cache's copy discipline (write paths store a copy, read paths hand out a copy); TLC checks that "
+                  "nothing a caller does to a model it holds changes what the cache shows and refutes the aliasIn/aliasOut variants; MC_Iso enumerates "
+                  "every (model family x write path x mutation), (family x 14 read paths x field kind x mutation) and Clone/Equal law case; each is "
+                  "executed on the real cache, a synchronised client and event handlers for run-time, hand-written and generated models, judged by TraceIso.tla.",
+             note="Trusted: TLC; the harness' mutations by reflection; RowsShallow exempt as documented.",
+             tech="TLC model checking of a heap model (Iso.tla) + exhaustive enumerate-and-replay + TLC trace validation"),
  "C15": dict(engine="tla-txn", cat="model_checking", text=TXN_TEXT, note=TXN_NOTE, ref="6 C15",
              tech="type-directed name expansion in Txn.tla judging recorded transactions with named inserts"),
 }
 ENGINES = {
  "tla-txn": ("spec/TraceTxn.tla", "TLA+ reference model of OVSDB transactions, references, indexes and monitors + TLC trace validation of executions recorded from the real engine/server"),
+ "tla-iso": ("spec/Iso.tla", "heap model of cached-model isolation and Clone/Equal laws, enumerate-and-replay on cache/client/handlers"),
  "tla-cond": ("spec/Cond.tla", "RFC 7047 condition semantics in TLA+, enumeration of condition cases, validation of cache/select/API selections"),
  "tla-session": ("spec/Session.tla", "TLA+ model of monitor set-up vs notify/commit (Session.tla), schedules forced with pause points, sessions validated by TraceTxn.tla"),
  "tla-diff": ("spec/Diff.tla", "TLA+ difference algebra and update aggregation (Diff.tla, Merge.tla) + enumerate-and-replay through the updates package"),
